@@ -80,8 +80,8 @@ let nest_trace (selective: bool) (kind: string) (scripts: step list list) (ops: 
   let half = nleaf / 2 in
   let base c = if c = 0 then 0 else half in
   let inner_of l = if l < half then 0 else 1 in
-  (* handles named inside a leaf's script are global (leaf, k): within the same inner combinator they become local; the co-simulated suites
-     contain no wake-up of a leaf of the other inner combinator from inside a poll *)
+  (* handles named inside a leaf's script are global (leaf, k): within the same inner combinator they become local; a wake-up of a leaf of the
+     OTHER inner combinator is taken out of the script given to the inner model and applied to that combinator when it happens (`cross` below) *)
   let localise c (stp: step) = { stp with fires = List.filter_map (fun h -> match h with
       | HSelf -> Some HSelf
       | HOf (l, k) -> let l = int_of_nat l in if inner_of l = c then Some (HOf (nat_of_int (l - base c), k)) else None) stp.fires } in
@@ -109,6 +109,7 @@ let nest_trace (selective: bool) (kind: string) (scripts: step list list) (ops: 
     let d = drop_n !otr t in otr := List.length t;
     List.iter (fun e -> match e with EW p -> emit (Printf.sprintf "W%d" (int_of_nat p)) | _ -> ()) d end in
   let results = ref [] in
+  let npolls = Array.make (max nleaf 1) 0 in       (* how often each leaf has been polled: which step of its script is next *)
   let dropped = ref false in
   let ended = ref false in       (* a group is never finished for the model (it can be refilled); the harness stops polling a nest that returned None *)
   (* non-selective build: an inner combinator numbers the caller's wakers it has seen itself; pmap.(c) translates its numbers into the outer ones *)
@@ -117,65 +118,112 @@ let nest_trace (selective: bool) (kind: string) (scripts: step list list) (ops: 
   List.iter (fun o -> match o with
     | (OPollFresh | OPollSame) when !ended -> ()
     | OPollFresh | OPollSame ->
-        (* what each inner combinator would answer if it were polled now *)
         (* which parent waker does this poll of the outer combinator carry?  (none: the poll is ignored, the combinator has finished or was dropped) *)
         let opid = (match drop_n !otr (run_outer [oscs.(0); oscs.(1)] (!ohist @ [o])) with EB p :: _ -> int_of_nat p | _ -> -1) in
-        let spec = Array.init 2 (fun c ->
-          (* selective: the inner combinator is always handed the same sub-waker of the outer one; otherwise it is handed the caller's waker, which is
-             new to it unless it is the one of its own last poll *)
-          let pop = if selective then (if ipolled.(c) then OPollSame else OPollFresh)
-                    else (if ipolled.(c) && last_opid.(c) = opid then OPollSame else OPollFresh) in
-          let t = run_level (leaves c) (ihist.(c) @ [pop]) in
-          let d = drop_n itr.(c) t in
-          let nw = List.length (List.filter (fun e -> match e with EW _ -> true | _ -> false) d) in
-          let a = (match List.rev d with EEndR r :: _ -> to_ans r | EEndX :: _ -> APanic | _ -> APend) in
-          (pop, t, d, { fires = (if selective then List.init nw (fun _ -> HSelf) else []); answer = a })) in
-        ohist := !ohist @ [o];
-        let t = run_outer [oscs.(0) @ [let (_, _, _, s) = spec.(0) in s]; oscs.(1) @ [let (_, _, _, s) = spec.(1) in s]] !ohist in
-        let d = drop_n !otr t in otr := List.length t;
-        (* walk the outer poll; a poll of child c is replaced by what happened inside the inner combinator *)
-        let rec walk evs pending =
-          (match evs with
-           | [] -> ()
-           | EB p :: r -> emit (Printf.sprintf "B%d" (int_of_nat p)); walk r pending
-           | EC (c, _) :: r ->
-               let c = int_of_nat c in
-               let (pop, it, idelta, stp) = spec.(c) in
-               ihist.(c) <- ihist.(c) @ [pop]; itr.(c) <- List.length it; ipolled.(c) <- true; oscs.(c) <- oscs.(c) @ [stp];
-               last_opid.(c) <- opid;
-               (match idelta with EB pin :: _ -> Hashtbl.replace pmap.(c) (int_of_nat pin) opid | _ -> ());
-               (* the outer model's events for the self-wakes of this step: groups EF c h [EW p] *)
-               let rec groups evs acc = (match evs with
-                 | EF _ :: EW p :: r2 -> groups r2 (Some p :: acc)
-                 | EF _ :: r2 -> groups r2 (None :: acc)
-                 | r2 -> (List.rev acc, r2)) in
-               let (gs, r') = groups r [] in
-               let gs = ref gs in
-               List.iter (fun e -> match e with
-                 | EC (j, WSub _) -> let l = base c + int_of_nat j in emit (Printf.sprintf "c%d:S%d" l l)
-                 | EC (j, WPar p) -> emit (Printf.sprintf "c%d:P%d" (base c + int_of_nat j) (tr_pid c p))
-                 | EF (j, k) -> emit (Printf.sprintf "f%d.%d" (base c + int_of_nat j) (int_of_nat k))
-                 | EW p when not selective -> emit (Printf.sprintf "W%d" (tr_pid c p))
-                 | EW _ -> (match !gs with Some p :: g -> gs := g; emit (Printf.sprintf "W%d" (int_of_nat p)) | None :: g -> gs := g | [] -> ())
-                 | EAns a -> emit (show_ans a)
-                 | EDc j -> emit (Printf.sprintf "D%d" (base c + int_of_nat j))
-                 | EEndR r -> results := (c, r) :: !results
-                 | _ -> ()) idelta;
-               walk r' pending
-           | EAns _ :: r | EDc _ :: r -> walk r pending          (* the outer model's view of the inner combinator as a child *)
-           | ED :: r -> emit "d"; dropped := true; walk r pending
-           | EEndP :: r -> emit "E:P"; walk r pending
-           | EEndX :: r -> emit "E:X"; walk r pending
-           | EEndR ONone :: r -> emit "E:N"; ended := true; walk r pending
-           | EEndR (OSome (Some k, _)) :: r when kind = "nest_gj" ->      (* the member in slot k (= inner combinator k) has resolved: its output vector *)
-               let vs = (match List.assoc_opt (int_of_nat k) !results with Some (OVals vs) -> vs | _ -> []) in
-               emit ("E:S[" ^ ints vs ^ "]"); walk r pending
-           | EEndR (OSome (_, vs)) :: r -> emit ("E:S[" ^ ints vs ^ "]"); walk r pending
-           | EEndR _ :: r ->
-               let vals c = (match List.assoc_opt c !results with Some (OVals vs) -> vs | _ -> []) in
-               emit ("E:R[" ^ ints (vals 0 @ vals 1) ^ "]"); walk r pending
-           | _ :: r -> walk r pending) in
-        walk d ()
+        if opid >= 0 then begin
+          ohist := !ohist @ [o];
+          (* The children this poll of the outer combinator polls are determined one after the other: the outer model is run with the steps known so
+             far; the first child it polls beyond those is polled next in reality too (everything before that point is exact), so the inner
+             combinator is run NOW - after whatever its siblings did to it earlier in this very poll - and its step becomes known. *)
+          let known = ref [] in                    (* (child, step), in visiting order *)
+          let actions = [| []; [] |] in             (* per child, in time order: `Leaf token | `Wake (the next fire group of the outer model) | `Res *)
+          let final = ref [] in
+          let continue = ref true in
+          while !continue do
+            let scs = List.mapi (fun c s -> s @ (match List.assoc_opt c !known with Some st -> [st] | None -> [])) [oscs.(0); oscs.(1)] in
+            let d = drop_n !otr (run_outer scs !ohist) in
+            (match List.find_map (fun e -> match e with EC (c, _) when not (List.mem_assoc (int_of_nat c) !known) -> Some (int_of_nat c) | _ -> None) d with
+             | None -> continue := false; final := d
+             | Some c ->
+                 (* selective: the inner combinator is always handed the same sub-waker of the outer one; otherwise it is handed the caller's waker,
+                    which is new to it unless it is the one of its own last poll *)
+                 let pop = if selective then (if ipolled.(c) then OPollSame else OPollFresh)
+                           else (if ipolled.(c) && last_opid.(c) = opid then OPollSame else OPollFresh) in
+                 ihist.(c) <- ihist.(c) @ [pop];
+                 let t = run_level (leaves c) ihist.(c) in
+                 let idelta = drop_n itr.(c) t in
+                 itr.(c) <- List.length t; ipolled.(c) <- true; last_opid.(c) <- opid;
+                 (match idelta with EB pin :: _ -> Hashtbl.replace pmap.(c) (int_of_nat pin) opid | _ -> ());
+                 let acts = ref [] and fires = ref [] in
+                 let act a = acts := a :: !acts in
+                 (* a leaf wakes, from inside its poll, a leaf of the OTHER inner combinator: that combinator reacts at once *)
+                 let cross l2 k2 =
+                   let b = inner_of l2 in
+                   ihist.(b) <- ihist.(b) @ [OFire (nat_of_int (l2 - base b), k2)];
+                   let tb = run_level (leaves b) ihist.(b) in
+                   let db = drop_n itr.(b) tb in itr.(b) <- List.length tb;
+                   List.iter (fun e -> match e with
+                     | EF (j, k) -> act (`Leaf (Printf.sprintf "f%d.%d" (base b + int_of_nat j) (int_of_nat k)))
+                     | EW p when not selective -> act (`Leaf (Printf.sprintf "W%d" (tr_pid b p)))
+                     | EW _ -> act `Wake; fires := HOf (nat_of_int b, O) :: !fires
+                     | _ -> ()) db in
+                 let pending = ref [] and curj = ref (-1) in
+                 let flush_until (m: href -> bool) =          (* wake-ups scripted before the one the model has just reported (or all of them) *)
+                   let rec go () = (match !pending with
+                     | [] -> ()
+                     | h :: r -> pending := r;
+                         if m h then () else begin
+                           (match h with HOf (l2, k2) when inner_of (int_of_nat l2) <> c -> cross (int_of_nat l2) k2 | _ -> ());
+                           go () end) in go () in
+                 List.iter (fun e -> match e with
+                   | EC (j, w) ->
+                       let l = base c + int_of_nat j in
+                       curj := int_of_nat j;
+                       pending := (match List.nth_opt (List.nth scripts l) npolls.(l) with Some st -> st.fires | None -> []);
+                       npolls.(l) <- npolls.(l) + 1;
+                       act (`Leaf (match w with WSub _ -> Printf.sprintf "c%d:S%d" l l | WPar p -> Printf.sprintf "c%d:P%d" l (tr_pid c p)))
+                   | EF (j, k) ->
+                       let l2 = base c + int_of_nat j in
+                       flush_until (fun h -> match h with
+                         | HSelf -> int_of_nat j = !curj && int_of_nat k = npolls.(l2) - 1
+                         | HOf (lg, kg) -> int_of_nat lg = l2 && kg = k);
+                       act (`Leaf (Printf.sprintf "f%d.%d" l2 (int_of_nat k)))
+                   | EW p when not selective -> act (`Leaf (Printf.sprintf "W%d" (tr_pid c p)))
+                   | EW _ -> act `Wake; fires := HSelf :: !fires
+                   | EAns a -> flush_until (fun _ -> false); act (`Leaf (show_ans a))
+                   | EDc j -> act (`Leaf (Printf.sprintf "D%d" (base c + int_of_nat j)))
+                   | EEndR r -> results := (c, r) :: !results
+                   | _ -> ()) idelta;
+                 let a = (match List.rev idelta with EEndR r :: _ -> to_ans r | EEndX :: _ -> APanic | _ -> APend) in
+                 let stp = { fires = (if selective then List.rev !fires else []); answer = a } in
+                 actions.(c) <- List.rev !acts;
+                 known := !known @ [(c, stp)])
+          done;
+          List.iter (fun (c, stp) -> oscs.(c) <- oscs.(c) @ [stp]) !known;
+          otr := !otr + List.length !final;
+          (* print: a poll of child c is replaced by what happened inside the inner combinator *)
+          let rec walk evs =
+            (match evs with
+             | [] -> ()
+             | EB p :: r -> emit (Printf.sprintf "B%d" (int_of_nat p)); walk r
+             | EC (c, _) :: r ->
+                 let c = int_of_nat c in
+                 (* the outer model's events for the wake-ups of this step: groups EF c h [EW p] *)
+                 let rec groups evs acc = (match evs with
+                   | EF _ :: EW p :: r2 -> groups r2 (Some p :: acc)
+                   | EF _ :: r2 -> groups r2 (None :: acc)
+                   | r2 -> (List.rev acc, r2)) in
+                 let (gs, r') = groups r [] in
+                 let gs = ref gs in
+                 List.iter (fun a -> match a with
+                   | `Leaf s -> emit s
+                   | `Wake -> (match !gs with Some p :: g -> gs := g; emit (Printf.sprintf "W%d" (int_of_nat p)) | None :: g -> gs := g | [] -> ())) actions.(c);
+                 walk r'
+             | EAns _ :: r | EDc _ :: r -> walk r          (* the outer model's view of the inner combinator as a child *)
+             | ED :: r -> emit "d"; dropped := true; walk r
+             | EEndP :: r -> emit "E:P"; walk r
+             | EEndX :: r -> emit "E:X"; walk r
+             | EEndR ONone :: r -> emit "E:N"; ended := true; walk r
+             | EEndR (OSome (Some k, _)) :: r when kind = "nest_gj" ->      (* the member in slot k (= inner combinator k) has resolved: its output vector *)
+                 let vs = (match List.assoc_opt (int_of_nat k) !results with Some (OVals vs) -> vs | _ -> []) in
+                 emit ("E:S[" ^ ints vs ^ "]"); walk r
+             | EEndR (OSome (_, vs)) :: r -> emit ("E:S[" ^ ints vs ^ "]"); walk r
+             | EEndR _ :: r ->
+                 let vals c = (match List.assoc_opt c !results with Some (OVals vs) -> vs | _ -> []) in
+                 emit ("E:R[" ^ ints (vals 0 @ vals 1) ^ "]"); walk r
+             | _ :: r -> walk r) in
+          walk !final
+        end
     | OFire (l, k) ->
         let l = int_of_nat l in
         let c = if l < half then 0 else 1 in
